@@ -67,12 +67,17 @@ def build_file(ctx, fmt, name, encoding="ascii", archive=False, name_in_header=T
     data = bytearray(pb.tobytes())
     base = (512 if fmt.startswith("klm") else 122) if archive else 0
     off, ln = (22, 42) if fmt.startswith("klm") else (40, 42 if era == 2 else 44)
-    raw = name.encode("ascii") if encoding == "ascii" else name.encode("cp500")
+    raw = name.encode("cp500") if encoding == "cp500" else name.encode("ascii")
     if not name_in_header:
         raw = bytes(ln)
+    elif encoding == "ascii-fill" and ln == 44:
+        # the two bytes behind a 42-character name in a 44-byte field are FILL: whatever they hold (here: bytes that are
+        # not valid UTF-8), the name is the name
+        fill = [b"\xff\xff", b" \xfe", b"\x80\x81", b"\xc3\x28"][zlib.crc32(name.encode()) % 4]
+        raw = raw[:42] + fill
     else:
-        raw = raw[:ln] + (b"  " if (ln == 44 and encoding == "ascii") else b"")[: max(0, ln - len(raw))]
-        raw = raw.ljust(ln, b"\0" if encoding == "ascii" else b"\x40")
+        raw = raw[:ln] + (b"  " if (ln == 44 and encoding != "cp500") else b"")[: max(0, ln - len(raw))]
+        raw = raw.ljust(ln, b"\x40" if encoding == "cp500" else b"\0")
     data[base + off: base + off + ln] = raw
     if archive:   # the archive header carries the same name, an unset one (NULs + two blanks), or another valid name
         aname = name if archive is True else "NSS.GHRR.NC.D81193.S0000.E0100.B0000000.GC" if archive == "other" else None
@@ -293,6 +298,8 @@ def run(ctx):
             for fmt in CLASSES:
                 matching = spec_class("NSS.%s.%s.D02187.S1904.E2058.B0921517.GC" % (m, p)) == fmt
                 vs = list(variants_small)
+                if matching and fmt.startswith("pod"):
+                    vs += [("ascii-fill", False, True, "plain", "path"), ("ascii-fill", True, True, "name", "bytesio")]
                 if matching:
                     vs += full if ctx.thorough else [full[rng.randrange(len(full))], full[rng.randrange(len(full))]]
                 elif ctx.thorough or rng.random() < 0.08:
